@@ -27,7 +27,7 @@ entry (`Spec.headersMapAt`, known finding `C13-headers-host-entry`). -/
 theorem c13_same_view (D : Decoder) (pack : Bool) (lr : LReq) (hwf : Spec.wellFormed lr = true) (ep : EP) :
     mkCtx Impl.fixed D pack ep lr =
       some { ctx := { caches := true, fresh := Spec.obj lr }, funcs := Spec.funcs D lr,
-             headersMap := Spec.headersMapAt ep lr } := by
+             headersMap := Spec.headersMapAt ep lr, client := Spec.headersMap lr } := by
   simp only [Spec.wellFormed, Bool.and_eq_true] at hwf
   obtain ⟨⟨hp, hh⟩, hc⟩ := hwf
   cases ep with
@@ -95,13 +95,14 @@ of each entry point is the answer the reference semantics gives for the run of t
 decision, the view shown to the mechanisms (with the captures), cookies and header names handed to the upstream side;
 header values as `Spec.handOver` says. -/
 theorem c13_refines_reference (cfg : Cfg) (pack : Bool) (lr : LReq) (hwf : Spec.wellFormed lr = true) (ep : EP) :
-    serve Impl.fixed cfg pack ep lr = some (Spec.delivered ep (Spec.serve cfg lr)) := by
+    serve Impl.fixed cfg pack ep lr = some (Spec.delivered cfg.respond lr ep (Spec.serve cfg lr)) := by
   simp only [serve, c13_same_view cfg.D pack lr hwf ep, Option.map_some, Spec.serve]
-  exact congrArg some (execute_caching cfg (Spec.funcs cfg.D lr) ep (Spec.obj lr))
+  exact congrArg some (execute_caching cfg lr (Spec.funcs cfg.D lr) ep (Spec.obj lr))
 
 /-- the Envoy service hands over all values; the others do when nothing was collected twice -/
-theorem c13_delivered_is_answer (ep : EP) (r : Spec.Run) (h : ep = .envoy ∨ Spec.singleValued r = true) :
-    Spec.delivered ep r = Spec.answer ep r := by
+theorem c13_delivered_is_answer (R : Respond) (lr : LReq) (ep : EP) (r : Spec.Run)
+    (h : ep = .envoy ∨ Spec.singleValued r = true) :
+    Spec.delivered R lr ep r = Spec.answer R lr ep r := by
   have hv : ∀ kv ∈ r.ups.headers, Spec.handOver ep kv.2 = join comma kv.2 := by
     intro kv hkv
     rcases h with h | h
@@ -117,7 +118,7 @@ theorem c13_delivered_is_answer (ep : EP) (r : Spec.Run) (h : ep = .envoy ∨ Sp
   have hm : (r.ups.headers.map fun kv => (kv.1, Spec.handOver ep kv.2)) =
       r.ups.headers.map fun kv => (kv.1, join comma kv.2) :=
     List.map_congr_left fun kv hkv => by rw [hv kv hkv]
-  simp only [Spec.delivered, Spec.answer, hm]
+  simp only [Spec.delivered, Spec.answer, Spec.answerWith, hm]
 
 /-- **Same answer.** For a well-formed logical request, any rule set and any run in which no upstream header is
 collected twice, the three entry points give the answer of the reference semantics: the same decision, the same
@@ -125,43 +126,70 @@ request view shown to the mechanisms, the same headers and cookies for the upstr
 an upstream, which only the default rule lacks). -/
 theorem c13_same_answer (cfg : Cfg) (pack : Bool) (lr : LReq) (hwf : Spec.wellFormed lr = true)
     (hsv : Spec.singleValued (Spec.serve cfg lr) = true) (ep : EP) :
-    serve Impl.fixed cfg pack ep lr = some (Spec.answer ep (Spec.serve cfg lr)) := by
-  rw [c13_refines_reference cfg pack lr hwf ep, c13_delivered_is_answer ep _ (Or.inr hsv)]
+    serve Impl.fixed cfg pack ep lr = some (Spec.answer cfg.respond lr ep (Spec.serve cfg lr)) := by
+  rw [c13_refines_reference cfg pack lr hwf ep, c13_delivered_is_answer _ _ ep _ (Or.inr hsv)]
 
 example : Spec.singleValued
     { dec := .ok, ups := (({} : Ups).addHeader (b!"x-a") (b!"1")).addHeader (b!"X-B") (b!"2") } = true := by decide
 
-/-- the HTTP decision service and the Envoy gRPC decision service answer identically -/
+/-- the HTTP decision service and the Envoy gRPC decision service answer identically (`respond.with.accepted.code`
+    only says how the HTTP decision service spells "allowed"; it is left unset here) -/
 theorem c13_decision_eq_envoy (cfg : Cfg) (pack : Bool) (lr : LReq) (hwf : Spec.wellFormed lr = true)
-    (hsv : Spec.singleValued (Spec.serve cfg lr) = true) :
+    (hsv : Spec.singleValued (Spec.serve cfg lr) = true) (hacc : cfg.respond.accepted = 0) :
     serve Impl.fixed cfg pack .decision lr = serve Impl.fixed cfg pack .envoy lr := by
   rw [c13_same_answer cfg pack lr hwf hsv, c13_same_answer cfg pack lr hwf hsv]
-  rfl
+  simp only [Spec.answer, Spec.answerWith, okStatus, orDefault, hacc]
+  cases (Spec.serve cfg lr).dec <;> simp
 
 /-- … and so does the proxy service, for every rule that names an upstream (every rule but the default rule) -/
 theorem c13_proxy_eq_decision (cfg : Cfg) (pack : Bool) (lr : LReq) (hwf : Spec.wellFormed lr = true)
-    (hsv : Spec.singleValued (Spec.serve cfg lr) = true) (hup : (Spec.serve cfg lr).isDefault = false) :
+    (hsv : Spec.singleValued (Spec.serve cfg lr) = true) (hup : (Spec.serve cfg lr).isDefault = false)
+    (hacc : cfg.respond.accepted = 0) :
     serve Impl.fixed cfg pack .proxy lr = serve Impl.fixed cfg pack .decision lr := by
   rw [c13_same_answer cfg pack lr hwf hsv, c13_same_answer cfg pack lr hwf hsv]
-  simp [Spec.answer, hup]
+  simp only [Spec.answer, Spec.answerWith, okStatus, orDefault, hacc, hup]
+  cases (Spec.serve cfg lr).dec <;> simp
 
 /-- **Same decision**, with no condition on the run: whatever the pipeline collects, the three entry points decide
 alike (a proxy without upstream answers with an internal error instead of forwarding). -/
 theorem c13_same_decision (cfg : Cfg) (pack : Bool) (lr : LReq) (hwf : Spec.wellFormed lr = true) (ep : EP) :
-    (serve Impl.fixed cfg pack ep lr).map (·.dec) =
-      some (if ep = .proxy ∧ (Spec.serve cfg lr).isDefault = true ∧ (Spec.serve cfg lr).dec = .ok then Dec.internal
-            else (Spec.serve cfg lr).dec) := by
+    (serve Impl.fixed cfg pack ep lr).map (·.dec) = some (Spec.decAt ep (Spec.serve cfg lr)) := by
   rw [c13_refines_reference cfg pack lr hwf ep]
-  simp only [Option.map_some, Spec.delivered]
-  cases hd : (Spec.serve cfg lr).dec <;> cases ep <;> cases hi : (Spec.serve cfg lr).isDefault <;> simp
+  simp only [Option.map_some, Spec.delivered, answerWith_dec]
+
+/-- **Same status, class by class**, for every response configuration: a refusal of class `d` is answered with
+`respond.with.<d>.code` (or the default of the class) — as HTTP status by the decision and the proxy service, as
+status of the denied response by the Envoy gRPC service; "allowed" is 200 / OK (`accepted.code` at the decision
+service). -/
+theorem c13_same_status (cfg : Cfg) (pack : Bool) (lr : LReq) (hwf : Spec.wellFormed lr = true) (ep : EP) :
+    (serve Impl.fixed cfg pack ep lr).map (·.status) =
+      some (if Spec.decAt ep (Spec.serve cfg lr) = .ok then okStatus cfg.respond ep
+            else cfg.respond.code (Spec.decAt ep (Spec.serve cfg lr))) := by
+  rw [c13_refines_reference cfg pack lr hwf ep]
+  simp only [Option.map_some, Spec.delivered, answerWith_status]
+
+/-- a response configuration with pairwise different codes: every class is told apart by its status -/
+example : let R : Respond := { argument := 422, authentication := 407, authorization := 404, communication := 504,
+                               internal := 503, norule := 410 }
+    ([Dec.norule, .argument, .authentication, .authorization, .communication, .internal].map R.code) =
+      [410, 422, 407, 404, 504, 503] := by decide
+
+/-- **Same refusal**: if the request is not allowed, the three entry points give the very same answer — with no
+condition on the run or the response configuration -/
+theorem c13_same_refusal (cfg : Cfg) (pack : Bool) (lr : LReq) (hwf : Spec.wellFormed lr = true) (e1 e2 : EP)
+    (h1 : Spec.decAt e1 (Spec.serve cfg lr) ≠ .ok) (h2 : Spec.decAt e2 (Spec.serve cfg lr) ≠ .ok)
+    (hd : Spec.decAt e1 (Spec.serve cfg lr) = Spec.decAt e2 (Spec.serve cfg lr)) :
+    serve Impl.fixed cfg pack e1 lr = serve Impl.fixed cfg pack e2 lr := by
+  rw [c13_refines_reference cfg pack lr hwf, c13_refines_reference cfg pack lr hwf]
+  simp only [Spec.delivered, answerWith_refused _ _ _ _ _ h1, answerWith_refused _ _ _ _ _ h2, hd]
 
 /-- **Same view for the mechanisms**, with no condition on the run -/
 theorem c13_same_mechanism_view (cfg : Cfg) (pack : Bool) (lr : LReq) (hwf : Spec.wellFormed lr = true) (ep : EP) :
     (serve Impl.fixed cfg pack ep lr).map (·.seen.map fun s => (s.obj, s.stable)) =
       some ((Spec.serve cfg lr).view.map fun o => (o, true)) := by
   rw [c13_refines_reference cfg pack lr hwf ep]
-  simp only [Option.map_some, Spec.delivered]
-  cases hd : (Spec.serve cfg lr).dec <;> cases (Spec.serve cfg lr).view <;> simp <;> split <;> simp
+  simp only [Option.map_some, Spec.delivered, answerWith_seen]
+  cases (Spec.serve cfg lr).view <;> rfl
 
 /-- **Same cookies and same header names for the upstream side**, with no condition on the run -/
 theorem c13_same_upstream_cookies (cfg : Cfg) (pack : Bool) (lr : LReq) (hwf : Spec.wellFormed lr = true)
@@ -170,10 +198,29 @@ theorem c13_same_upstream_cookies (cfg : Cfg) (pack : Bool) (lr : LReq) (hwf : S
     o1.upCookies = o2.upCookies ∧ o1.upHeaders.map (·.1) = o2.upHeaders.map (·.1) := by
   rw [c13_refines_reference cfg pack lr hwf] at h1 h2
   cases h1; cases h2
-  revert hd1 hd2
-  simp only [Spec.delivered]
-  cases (Spec.serve cfg lr).dec <;> simp
-  split <;> split <;> simp
+  obtain ⟨hc1, hh1, _⟩ := answerWith_ok _ _ _ _ _ hd1
+  obtain ⟨hc2, hh2, _⟩ := answerWith_ok _ _ _ _ _ hd2
+  simp only [Spec.delivered] at *
+  rw [hc1, hc2, hh1, hh2]
+  simp [List.map_map, Function.comp_def]
+
+/-- **The pipeline's header wins, at every entry point.** What the upstream application is shown under a header name
+the pipeline handed over is the pipeline's value — whatever the client sent under that name, in whatever spelling and
+however often —, and every other header of the client is passed on. -/
+theorem c13_pipeline_header_replaces_client_header (cfg : Cfg) (pack : Bool) (lr : LReq)
+    (hwf : Spec.wellFormed lr = true) (ep : EP) (out : Outcome) (hs : serve Impl.fixed cfg pack ep lr = some out)
+    (hok : out.dec = .ok) (name : Bytes) :
+    EntryView.lookup name out.upSees =
+      (EntryView.lookup name out.upHeaders).orElse fun _ => EntryView.lookup name (Spec.headersMap lr) := by
+  rw [c13_refines_reference cfg pack lr hwf] at hs
+  cases hs
+  obtain ⟨_, hh, hsees⟩ := answerWith_ok _ _ _ _ _ hok
+  simp only [Spec.delivered] at *
+  rw [hsees, hh, lookup_overrideHeaders]
+
+/-- the client sends `x-user: mallory`, the pipeline sets `X-User: alice`: the upstream is shown `alice` only -/
+example : overrideHeaders [(b!"X-User", b!"mallory"), (b!"Accept", b!"*/*")] [(b!"X-User", b!"alice")] =
+    [(b!"X-User", b!"alice"), (b!"Accept", b!"*/*")] := by decide
 
 /-- **Captures survive.** When the lookup finds a rule with captured path values `ps`, the view every mechanism of
 that rule is shown — at every entry point — carries exactly these values, decoded according to the rule's
@@ -188,24 +235,18 @@ theorem c13_captures_survive (cfg : Cfg) (pack : Bool) (lr : LReq) (hwf : Spec.w
   rw [c13_refines_reference cfg pack lr hwf ep] at hs
   cases hs
   have hview : (Spec.serve cfg lr).view = some s.obj ∧ s.stable = true := by
-    revert hseen
-    simp only [Spec.delivered]
-    cases (Spec.serve cfg lr).dec <;> cases (Spec.serve cfg lr).view <;> simp <;>
-      first
-        | (intro h; rw [← h]; simp)
-        | (split <;> simp <;> intro h <;> rw [← h] <;> simp)
+    simp only [Spec.delivered, answerWith_seen] at hseen
+    cases hv : (Spec.serve cfg lr).view with
+    | none => simp [hv] at hseen
+    | some o => simp [hv] at hseen; rw [← hseen]; exact ⟨rfl, rfl⟩
   refine ⟨hview.2, ?_⟩
   have hv := hview.1
   simp only [Spec.serve, Spec.serveOn, hfind] at hv
   split at hv
   · simp at hv
   · rename_i hpre
-    have hobj : (prelude v.esh { Spec.obj lr with captures := some (toBytesPairs (lastWins ps)) }).1 = s.obj := by
-      revert hv
-      simp only [Spec.runPipe]
-      split
-      · simp
-      · split <;> simp
+    have hobj : (prelude v.esh { Spec.obj lr with captures := some (toBytesPairs (lastWins ps)) }).1 = s.obj :=
+      runPipe_view _ _ _ _ _ hv
     rw [← hobj, prelude_captures _ _ (by simpa using hpre)]
     rfl
 
